@@ -25,6 +25,8 @@ emu_ev(struct emu_ev *ev, const struct ovni_ev *oev,
 
 		if (oev->header.flags & OVNI_EV_JUMBO) {
 			ev->is_jumbo = 1;
+		} else {
+			ev->is_jumbo = 0;
 		}
 	} else {
 		ev->has_payload = 0;
